@@ -116,6 +116,9 @@ fn main() {
             if id == "C05" {
                 std::process::exit(c05::replay_in_child(&args[2]));
             }
+            if id == "C19" && doc["engine"] == "miri" {
+                std::process::exit(c19::replay_miri(&doc, &args[2]));
+            }
             let code = dispatch!(id.as_str(), p => harness::replay(&p, &doc, &args[2]));
             std::process::exit(code);
         }
